@@ -368,8 +368,12 @@ def oracle_c10(case):
     if not strs:
         return None
     samples = [{"f": s} for s in strs]
+    from .common import shared_state_snapshot
+    before = shared_state_snapshot()
     reg, gen, roots = infer({"Root": samples})
     code = render(reg, fw, "flat", max_literals=mx)
+    if shared_state_snapshot() != before:
+        return f"rendering with max_literals={mx} ({fw}) wrote class-level / module-level state"
     node = dict((q, n) for q, n in classes_of(code))["Root"]
     ann = [a for f, a, d in fields_of(node) if f == "f"][0]
     distinct = set(strs)
